@@ -236,7 +236,8 @@ def etype(t, req_override=None):
         kind, ereq, r = tab['TArray']
         return (kind, R(r), etype(t.element_type, ereq))
     if isinstance(t, (T.tstruct, T.ttuple)):
-        return ('EBaseStruct', R(tab['TStruct'][0]), [etype(x) for x in t.types], 'struct')
+        return ('EBaseStruct', R(tab['TStruct'][0]), [etype(x) for x in t.types], 'struct',
+                list(t.keys()) if isinstance(t, T.tstruct) else None)
     if isinstance(t, T.tndarray):
         kind, ereq, r = tab['TNDArray']
         return (kind, R(r), etype(t.element_type, ereq), t.ndim)
@@ -302,7 +303,7 @@ def ref_encode(et, v, out):
         elif isinstance(v, tuple):
             vals = list(v)
         else:
-            vals = [v[f] for f in v]
+            vals = [v[f] for f in et[4]]       # by NAME in the type's field order: the value's own order may differ
         k = 0
         b = 0
         for f, x in zip(fields, vals):
